@@ -65,6 +65,17 @@ Record header := {
   h_gaslimit : N; h_gasused : N; h_time : N;
   h_extra : bytes; h_mix : bytes; h_nonce : N; h_basefee : bytes }.
 
+(** short-circuit conjunction ([vm_compute] is strict: [a && b] would evaluate both) *)
+Notation "a &&& b" := (if a then b else false) (at level 40, left associativity).
+
+Definition header_eqb (a b : header) : bool :=
+  (h_nonce a =? h_nonce b) &&& (h_num a =? h_num b) &&& (h_time a =? h_time b) &&& (h_rev a =? h_rev b)
+  &&& beq (h_root a) (h_root b) &&& beq (h_extra a) (h_extra b) &&& beq (h_parent a) (h_parent b)
+  &&& (h_gaslimit a =? h_gaslimit b) &&& (h_gasused a =? h_gasused b) &&& beq (h_basefee a) (h_basefee b)
+  &&& beq (h_diff a) (h_diff b) &&& beq (h_uncle a) (h_uncle b) &&& beq (h_coinbase a) (h_coinbase b)
+  &&& beq (h_tx a) (h_tx b) &&& beq (h_receipt a) (h_receipt b) &&& beq (h_bloom a) (h_bloom b)
+  &&& beq (h_mix a) (h_mix b).
+
 (** ConsensusState{Timestamp, Height, Root} *)
 Record cstate := { c_time : N; c_rev : N; c_num : N; c_root : bytes }.
 
@@ -429,9 +440,13 @@ Section Oracles.
                       negb ((h_num a =? h_num h) && beq (to_hash (h_root a)) (to_hash (h_root h)))
                       || beq (hash a) (hash h)) (idx s).
 
+  (** a header stored under the hash and number of [h] is [h] itself (same bytes) *)
+  Definition noalias_b (s : state) (h : header) : bool :=
+    match iget (hash h, h_num h) (idx s) with Some a => header_eqb a h | None => true end.
+
   (** Hypotheses of [no_wedge], evaluated on the state BEFORE the update. *)
   Definition should_accept (bt : N) (s : state) (h : header) : bool :=
-    active bt s && valid_child_b bt s h && (h_rev h =? h_rev (head s)) && fresh_root_b s h &&
+    active bt s && valid_child_b bt s h && (h_rev h =? h_rev (head s)) && fresh_root_b s h && noalias_b s h &&
     (beq (hash (head s)) (h_parent h)
      || meets s h (if prune_due bt s then base s + 1 else base s)).
 
